@@ -7,6 +7,7 @@ import (
 	"fmt"
 	"math/big"
 	"sort"
+	"strings"
 	"sync"
 	"testing"
 	"time"
@@ -152,11 +153,11 @@ type Deployed struct {
 
 // Weights of operation kinds (see Producer.Step).
 type Weights struct {
-	GasTransfer, NeoTransfer, Vote, Candidate, Policy, Block, Role, Deploy, Run, Update, Destroy, Notary, Fault, Payment, NotaryAssisted, Oracle, Ledger int
+	GasTransfer, NeoTransfer, Vote, Candidate, Policy, Block, Role, Deploy, Run, Update, Destroy, Notary, Fault, Payment, NotaryAssisted, Oracle, Ledger, Alias int
 }
 
 // DefaultWeights is a balanced mix.
-var DefaultWeights = Weights{GasTransfer: 10, NeoTransfer: 8, Vote: 10, Candidate: 4, Policy: 5, Block: 3, Role: 2, Deploy: 3, Run: 14, Update: 2, Destroy: 1, Notary: 4, Fault: 5, Payment: 5, NotaryAssisted: 3, Oracle: 4, Ledger: 3}
+var DefaultWeights = Weights{GasTransfer: 10, NeoTransfer: 8, Vote: 10, Candidate: 4, Policy: 5, Block: 3, Role: 2, Deploy: 3, Run: 14, Update: 2, Destroy: 1, Notary: 4, Fault: 5, Payment: 5, NotaryAssisted: 3, Oracle: 4, Ledger: 3, Alias: 4}
 
 // ProducerConfig configures a history producer.
 type ProducerConfig struct {
@@ -198,6 +199,7 @@ type Producer struct {
 	nonce                                   uint32
 	closeOnce                               sync.Once
 	pending                                 map[util.Uint256]func()
+	probes                                  map[util.Uint256]string
 	names                                   int
 	wl                                      []wlEntry
 	oracleReqs                              []oracleReq
@@ -366,12 +368,21 @@ func (p *Producer) AddBlock(txs ...*transaction.Transaction) *block.Block {
 				if f := p.pending[tx.Hash()]; f != nil {
 					f()
 				}
+				if what, ok := p.probes[tx.Hash()]; ok {
+					for _, it := range aer[0].Stack {
+						if v, err := it.TryBool(); (err != nil || !v) && p.Rejected == nil {
+							// reported by the checks like a block the producer's own node rejects
+							p.Rejected = fmt.Errorf("memory probe of block %d (%s) found the stored value changed: bytes the storage layer handed to the VM (or took from it) were changed in place by a later instruction", b.Index, what)
+						}
+					}
+				}
 			}
 		}
 		k := p.TxKinds[tx.Hash()] + ":" + res
 		p.Kinds[k]++
 		kl = append(kl, k)
 		delete(p.pending, tx.Hash())
+		delete(p.probes, tx.Hash())
 	}
 	p.KindLog = append(p.KindLog, kl)
 	p.reconcile()
@@ -454,7 +465,7 @@ func (p *Producer) GenTxs() []*transaction.Transaction {
 	r := p.R
 	p.spent = map[int]int64{}
 	w := p.Cfg.W
-	ws := []int{w.GasTransfer, w.NeoTransfer, w.Vote, w.Candidate, w.Policy, w.Block, w.Role, w.Deploy, w.Run, w.Update, w.Destroy, w.Notary, w.Fault, w.Payment, w.NotaryAssisted, w.Oracle, w.Ledger}
+	ws := []int{w.GasTransfer, w.NeoTransfer, w.Vote, w.Candidate, w.Policy, w.Block, w.Role, w.Deploy, w.Run, w.Update, w.Destroy, w.Notary, w.Fault, w.Payment, w.NotaryAssisted, w.Oracle, w.Ledger, w.Alias}
 	n := r.Intn(p.Cfg.MaxTx + 1)
 	var txs []*transaction.Transaction
 	policyUsed := false
@@ -504,6 +515,8 @@ func (p *Producer) GenTxs() []*transaction.Transaction {
 			tx = p.opOracle()
 		case 16:
 			tx = p.opLedger()
+		case 17:
+			tx = p.opAlias()
 		}
 		if tx != nil {
 			txs = append(txs, tx)
@@ -1055,6 +1068,46 @@ func (p *Producer) opRun() *transaction.Transaction {
 	}
 	d := p.Live[p.R.Intn(len(p.Live))]
 	return p.Call("run-plan", []neotest.Signer{u.S}, d.Hash, "run", p.Plan(5, true))
+}
+
+// opAlias calls two or three memory probes of a live helper contract (see
+// alias.go) in one transaction; every probe leaves true on the stack.
+func (p *Producer) opAlias() *transaction.Transaction {
+	if len(p.Live) == 0 {
+		return p.opDeploy()
+	}
+	u := p.freeUser()
+	if u == nil {
+		return nil
+	}
+	r := p.R
+	d := p.Live[r.Intn(len(p.Live))]
+	w := io.NewBufBinWriter()
+	what := ""
+	for i, n := 0, 2+r.Intn(2); i < n; i++ {
+		dv, mu := r.Intn(AliasDerives), r.Intn(AliasMutators)
+		switch r.Intn(4) {
+		case 0:
+			k, v := keyUniverse[r.Intn(len(keyUniverse))], valUniverse[r.Intn(len(valUniverse))]
+			if len(v) == 0 {
+				v = []byte("probe-value")
+			}
+			emit.AppCall(w.BinWriter, d.Hash, AliasPutName(mu), callflag.All, k, v)
+			what += AliasPutName(mu) + " "
+		case 1:
+			emit.AppCall(w.BinWriter, d.Hash, AliasFindName(dv, mu), callflag.All, keyUniverse[r.Intn(3)][:r.Intn(2)])
+			what += AliasFindName(dv, mu) + " "
+		default:
+			emit.AppCall(w.BinWriter, d.Hash, AliasGetName(dv, mu), callflag.All, keyUniverse[r.Intn(len(keyUniverse))])
+			what += AliasGetName(dv, mu) + " "
+		}
+	}
+	tx := p.Tx("memory-probe", []neotest.Signer{u.S}, w.Bytes(), -1)
+	if p.probes == nil {
+		p.probes = map[util.Uint256]string{}
+	}
+	p.probes[tx.Hash()] = strings.TrimSpace(what)
+	return tx
 }
 
 func (p *Producer) opUpdate() *transaction.Transaction {
